@@ -394,12 +394,13 @@ class _DataCompiler:
             self._old_cache = old_cache
         data_files = self._process_top()
         # We process each of the files that were listed in top.yaml.
+        data_items = tuple()
+        data_versions = tuple()
         if data_files:
             data_list = self._process_data_files(["top file"], data_files)
-            data_items, data_versions = zip(*data_list)
-        else:
-            data_items = tuple()
-            data_versions = tuple()
+            # The list is empty if none of the files provides any data.
+            if data_list:
+                data_items, data_versions = zip(*data_list)
         # The result version is an aggregate of the versions of the involved
         # files. We do not have to consider the version of the top file,
         # because changes in the top file only matter if they lead to a
